@@ -109,6 +109,12 @@ def types_xml(plan):
     for t in plan["types"]:
         if t["name"] == "box":
             out.extend(_type_xml(t, plan["slots"].get("box", ())))
+    if plan.get("imports_in_src"):
+        # ... and it is this file that pulls in the component packages: they
+        # are part of the application schema all the same (a later '%import'
+        # of one of them has nothing left to do)
+        for p in plan.get("schema_imports", ()):
+            out.append('  <import package="%s"/>' % p)
     out.append("</schema>")
     return "\n".join(out) + "\n"
 
@@ -124,7 +130,8 @@ def schema_xml(plan):
         if plan.get("src_import") and t["name"] == "box":
             continue
         out.extend(_type_xml(t, plan["slots"].get(t["name"], ())))
-    for p in plan.get("schema_imports", ()):
+    for p in (() if plan.get("imports_in_src")
+              else plan.get("schema_imports", ())):
         # the default component file may be named explicitly: one component
         out.append('  <import package="%s"%s/>' % (
             p, ' file="component.xml"' if plan.get("explicit_file") else ""))
@@ -498,6 +505,13 @@ def generate(rng, tier, index):
     plan["src_import"] = bool(
         with_box and rng.random() < 0.5 and all(
             s_["type"] in plan["abstract"] for s_ in plan["slots"]["box"]))
+    # (possible when no component type builds on a type that only the top
+    # schema defines)
+    plan["imports_in_src"] = bool(
+        plan["src_import"] and plan["schema_imports"]
+        and rng.random() < 0.6
+        and all((t_.get("extends") or "p").startswith("p")
+                for c_ in plan["components"].values() for t_ in c_["types"]))
     # loads
     pkgs = sorted(plan["components"])
     for _ in range(rng.randint(1, 4)):
